@@ -1,4 +1,4 @@
-import AkVerif.Lemmas.GhistBranch
+import AkVerif.Lemmas.GhistFinal
 import AkVerif.Lemmas.GhistOrder
 /-! From the graph to the printed report: membership in the commit lists of a build. -/
 namespace Ghist
@@ -139,5 +139,48 @@ theorem BrFacts.disj {β} {rb : RBranch β} (hf : BrFacts rb) (a b : RB β) (ha 
     · exact h
     · rw [(hfk b h).1] at hnb; cases hnb
   exact hd a ha' b hb' hne
+
+theorem mem_repBranch_builds {β} (rcs : List RC) (rb : RBranch β) (bd : RepBuild) :
+    bd ∈ (repBranch rcs rb).builds ↔ ∃ bd0 ∈ rb.rbuilds, bd = repBuild rcs bd0 := by
+  simp only [repBranch, List.mem_map, mem_buildsList]
+  constructor
+  · rintro ⟨a, ha, rfl⟩; exact ⟨a, ha, rfl⟩
+  · rintro ⟨a, ha, rfl⟩; exact ⟨a, ha, rfl⟩
+
+theorem listed_iff_mem {β} (rcs : List RC) (b : RB β) (c : Nat) :
+    c ∈ (repBuild rcs b).commits ↔ Listed rcs b c := mem_repBuild_commits rcs b c
+
+/-- at most one build of a branch is a pseudo build -/
+theorem buildsList_one_pseudo {β} {rb : RBranch β} (hf : BrFacts rb) (i j : Nat) (a b : RB β) (hij : i ≠ j)
+    (ha : (buildsList rb)[i]? = some a) (hb : (buildsList rb)[j]? = some b)
+    (hna : a.rcommit = none) (hnb : b.rcommit = none) : False := by
+  obtain ⟨cur, fakes, hsplit, hlen, hfk, hcur, _, _⟩ := hf.split
+  let R : RB β → RB β → Prop := fun a b => ¬ (a.rcommit = none ∧ b.rcommit = none)
+  have hsym : ∀ {x y : RB β}, R x y → R y x := fun hxy h => hxy ⟨h.2, h.1⟩
+  have hP0 : (cur ++ fakes).Pairwise R := by
+    rw [List.pairwise_append]
+    refine ⟨?_, ?_, ?_⟩
+    · apply List.pairwise_of_forall_mem_list
+      intro x hx y _ ⟨h1, _⟩
+      have := (hcur x hx).1; rw [h1] at this; cases this
+    · match fakes, hlen with
+      | [], _ => simp
+      | [f], _ => simp
+    · intro x hx y _ ⟨h1, _⟩
+      have := (hcur x hx).1; rw [h1] at this; cases this
+  have hP : (buildsList rb).Pairwise R := by
+    have hperm : (buildsList rb).Perm (cur ++ fakes) := by
+      rw [← hsplit]; exact sortBy_perm _ _
+    exact (List.Perm.pairwise_iff hsym hperm).mpr hP0
+  obtain ⟨hi, hai⟩ := List.getElem?_eq_some_iff.mp ha
+  obtain ⟨hj, hbj⟩ := List.getElem?_eq_some_iff.mp hb
+  have hP' := List.pairwise_iff_getElem.mp hP
+  rcases Nat.lt_or_gt_of_ne hij with hlt | hlt
+  · have := hP' i j hi hj hlt
+    rw [hai, hbj] at this
+    exact this ⟨hna, hnb⟩
+  · have := hP' j i hj hi hlt
+    rw [hai, hbj] at this
+    exact this ⟨hnb, hna⟩
 
 end Ghist
